@@ -69,7 +69,10 @@ extern "C" void harness(void)
     m.f(x);
 #elif VF_OP == 11     /* REQUIRE_DESTRUCTION created and released while the object lives */
     auto *obj = new trompeloeil::deathwatched<T>;
-    { auto r = NAMED_REQUIRE_DESTRUCTION(*obj); BAL("C12.lock_released_after_requirement_creation"); }
+    { auto r = NAMED_REQUIRE_DESTRUCTION(*obj); BAL("C12.lock_released_after_requirement_creation");
+      bool qa = r->is_satisfied(), qb = r->is_saturated();      // lock-free queries: legal only because the flag is atomic
+      VCLAIM(12, !qa && !qb, "C12.requirement_query_values");
+      BAL("C12.lock_released_after_requirement_query"); }
     BAL("C12.lock_released_after_requirement_release");
     delete obj;
     BAL("C12.lock_released_after_unexpected_destruction");
